@@ -64,7 +64,7 @@ def run(ctx):
     depth = 4 if ctx.tier == 'quick' else 5
     # client
     poll = F.trait_method('Future', 'client::RequestDispatch', 'poll')
-    acc, fields = find_cell_accessors(F, P, 'client::RequestDispatch', lambda t: t.startswith('std::option::Option<'))
+    acc, fields = find_cell_accessors(F, P, 'client::RequestDispatch', lambda t: t.startswith('std::option::Option<') and 'ChannelError' in t)
     cells = []
     if fields:
         name = sorted(fields)[0]
